@@ -26,9 +26,13 @@ HELD_HISTORIES = [
       [("create", "W/a/b/x")], [("release", "W/a/b")], [("create", "W/a/y")]]),
 ]
 
-# inputs of recorded findings (known_findings.json; none at present): run on every check of C01 and C02, reported under their
-# own signatures
+# inputs of recorded findings (known_findings.json), per property: run on every check of that property, reported under their own
+# signatures
 KNOWN_BURSTS = [
+    # D26 (C07 only: C01 / C02 exclude it by their pacing condition - the name of a directory that has just left the tree is
+    # re-used before the stream has drained; C07 has no pacing condition: "names re-used after deletion or move", "all timings")
+    ("C07", "d26-name-reused-within-the-pairing-delay", [("mkdir", "W/a"), ("mkdir", "W/a/s")],
+     [[("rename", "W/a", "O/a"), ("mkdir", "W/a")], [("create", "W/a/f")], [("mkdir", "W/a/n")], [("create", "W/a/n/g")]]),
 ]
 
 FIXED_BURSTS = [
@@ -259,8 +263,10 @@ def run(res, tier, lean, prop="C01", proof_breaks=(), build_log=""):
 
 
     recorded = []          # violations on the inputs of recorded findings: appended last (other reports look at res.violations)
-    if prop in ("C01", "C02"):
-        for sig, init_k, bursts_k in KNOWN_BURSTS:
+    if prop in ("C01", "C02", "C07"):
+        for kprop, sig, init_k, bursts_k in KNOWN_BURSTS:
+            if kprop != prop:
+                continue
             out = pipe.run_bursts(init_k, bursts_k, recursive=True, gate_reads=True)
             res.count()
             res.bump("recorded_finding_inputs_run")
@@ -269,6 +275,9 @@ def run(res, tier, lean, prop="C01", proof_breaks=(), build_log=""):
                 v = f"a library thread died of an unhandled error: {out['thread_errors']}"
             elif prop == "C01":
                 v = pipe.replay_judge(out, True)
+            elif prop == "C07":
+                if not out["root_gone"] and any(not seen for d, depth, seen in out["probes"]):
+                    v = "later changes in the tree go unreported"
             else:
                 for d, depth, seen in out["probes"]:
                     if not seen:
